@@ -1,8 +1,61 @@
 (* C10 - Splits only rescale.  Statements only. *)
 From Coq Require Import QArith Qcanon ZArith List Bool.
-Require Import CGT.Model.Num CGT.Model.Ledger CGT.Model.Agg CGT.Proofs.AggFacts.
+Require Import CGT.Model.Num CGT.Model.Ledger CGT.Model.Agg CGT.Model.Match CGT.Proofs.AggFacts CGT.Proofs.MatchInv
+  CGT.Proofs.MatchGauge CGT.Proofs.Examples.
+Import ListNotations.
 Open Scope Qc_scope.
 
 Theorem C10_split_unsplit_cancel : forall r, r <> 0 -> ratio_of (Split r) * ratio_of (Unsplit r) = 1.
 Proof. exact ratio_split_unsplit. Qed.
 Print Assumptions C10_split_unsplit_cancel.
+
+(* Change of units.  Measure day z's share counts in units scaled by any positive factor g z (gend after the last day), each
+   day's split ratio becoming ratio * g(next day) / g(day): the run is refused on the same day for the same reason or accepted
+   in both cases, and then every money figure (each leg's cost, gross and net proceeds and gain, the pool's cost) is the same,
+   each leg's quantity is multiplied by its sale day's factor, and the closing pool by gend.  For ledgers without capital
+   events (with them the law fails for model and code alike: known finding D5). *)
+Theorem C10_change_of_units : forall (g : Z -> Qc) (gend : Qc) (w : Z) (ds : list day),
+  (forall z, 0 < g z) -> ratios_pos ds -> noev ds ->
+  match run w ds, run w (gauge g gend ds) with
+  | inl e, inl e' => e = e'
+  | inr s, inr s' =>
+      m_pq s' = m_pq s * gend /\ m_pc s' = m_pc s /\ m_pooled s' = m_pooled s /\
+      (forall z, claim_of (m_cl s') z = claim_of (m_cl s) z * g z) /\
+      m_disp s' = map (fun p => (fst p, map (scale_leg (g (fst p))) (snd p))) (m_disp s) /\ m_pos s' = m_pos s * gend
+  | _, _ => False
+  end.
+Proof. exact run_gauge. Qed.
+Print Assumptions C10_change_of_units.
+
+Theorem C10_scaled_leg_money : forall c l,
+  lg_qty (scale_leg c l) = lg_qty l * c /\ lg_cost (scale_leg c l) = lg_cost l /\ lg_gross (scale_leg c l) = lg_gross l /\
+  lg_net (scale_leg c l) = lg_net l /\ lg_gain (scale_leg c l) = lg_gain l /\ lg_rule (scale_leg c l) = lg_rule l /\
+  lg_acq (scale_leg c l) = lg_acq l /\ lg_sell (scale_leg c l) = lg_sell l.
+Proof. intros c l. repeat split. Qed.
+Print Assumptions C10_scaled_leg_money.
+
+(* The property's own transformation: the ledger rewritten in post-split units (quantities up to and including the split day D
+   multiplied by r, the factor r removed from that day's ratio). *)
+Theorem C10_rescale : forall (w D : Z) (r : Qc) (ds : list day),
+  0 < r -> sorted_days ds -> In D (dates ds) -> ratios_pos ds -> noev ds ->
+  match run w ds, run w (map (rescale_day D r) ds) with
+  | inl e, inl e' => e = e'
+  | inr s, inr s' =>
+      m_pq s' = m_pq s * 1 /\ m_pc s' = m_pc s /\ m_pooled s' = m_pooled s /\
+      (forall z, claim_of (m_cl s') z = claim_of (m_cl s) z * split_gauge D r z) /\
+      m_disp s' = map (fun p => (fst p, map (scale_leg (if (fst p <=? D)%Z then r else 1)) (snd p))) (m_disp s) /\ m_pos s' = m_pos s * 1
+  | _, _ => False
+  end.
+Proof. exact run_split_rescale. Qed.
+Print Assumptions C10_rescale.
+
+(* non-vacuity: ex1 has a split on day 31 with a sale that day matched to a purchase after the split; it is accepted and so is its rescaling *)
+Example C10_rescale_applies :
+  sorted_days ex1 /\ In 31%Z (dates ex1) /\ ratios_pos ex1 /\ noev ex1 /\
+  (exists s, run 30 ex1 = inr s) /\ (exists s', run 30 (map (rescale_day 31 (qz 2)) ex1) = inr s').
+Proof.
+  split; [exact ex1_sorted|]. split; [cbn; tauto|].
+  split; [intros d Hd; apply (ex1_wf d Hd)|].
+  split; [intros d Hd; cbn [ex1 In] in Hd; repeat (destruct Hd as [<-|Hd]; [reflexivity|]); destruct Hd|].
+  split; eexists; vm_compute; reflexivity.
+Qed.
